@@ -11,7 +11,8 @@
 //   stress  G goroutines x their call lists on one registry while some readers stay parked in gates
 //   cmdin   AddCmd with $in/$out placeholders (own registry; pinned known defect, own process)
 //   htmldep shared *html.Minifier with the deprecated KeepConditionalComments (pinned known defect)
-// trace lines are uniform records {ev,sc,g,k,sh,key,h,err,races,o1,o2,note}; the relation is in
+//   shape   sequential, instrumented registry: the tree of nested registry calls each document causes
+// trace lines are uniform records {ev,sc,g,k,sh,key,h,err,races,o1,o2,note,tree}; the relation is in
 // spec/ConcTrace.tla.  This program only calls the real public API and hashes what comes back.
 package main
 
@@ -23,6 +24,7 @@ import (
 	"encoding/json"
 	"fmt"
 	"io"
+	"net/url"
 	"os"
 	"os/exec"
 	"regexp"
@@ -95,6 +97,7 @@ type Line struct {
 	O1    string `json:"o1"`
 	O2    string `json:"o2"`
 	Note  string `json:"note"`
+	Tree  []any  `json:"tree"` // shape lines: [mediatype class, inline, [children]] of the nested calls
 }
 
 var (
@@ -103,10 +106,17 @@ var (
 	deadline = 20 * time.Second
 	raceLog  string
 	raceOff  int
+	poisoned bool // a deadline expired: goroutines may be stuck for good, later scenarios are not run in this process
 )
 
 // emit writes one trace line unbuffered (a stuck scenario must not lose what was observed before it).
 func emit(l Line) {
+	if l.Tree == nil {
+		l.Tree = []any{}
+	}
+	if l.Ev == "blocked" {
+		poisoned = true
+	}
 	b, err := json.Marshal(l)
 	if err != nil {
 		lib.Fatal("marshal: %v", err)
@@ -201,8 +211,10 @@ func newReg(optset int) *reg {
 		r.js = &js.Minifier{Precision: 5, Version: 2019}
 		r.json = &mjson.Minifier{Precision: 6}
 		r.xml = &mxml.Minifier{KeepWhitespace: true}
+		r.m.URL = &url.URL{Scheme: "https", Host: "example.com"} // shared, read by the html minifier
 	default:
-		r.html = &html.Minifier{KeepEndTags: true, KeepDefaultAttrVals: true, KeepWhitespace: true, KeepComments: true}
+		r.html = &html.Minifier{KeepEndTags: true, KeepDefaultAttrVals: true, KeepWhitespace: true, KeepComments: true,
+			TemplateDelims: html.GoTemplateDelims}
 		r.css = &css.Minifier{KeepCSS2: true, Precision: 1}
 		r.svg = &svg.Minifier{Precision: 1}
 		r.js = &js.Minifier{KeepVarNames: true}
@@ -561,7 +573,7 @@ func runStress(sc *Scenario) {
 					emit(Line{Ev: "ret", Sc: sc.ID, G: g + 1, K: k + 1, Key: keyOf(sc, c), H: res.h, Err: res.err, Note: res.o1})
 				}
 			}
-		case <-time.After(6 * deadline):
+		case <-time.After(2 * deadline):
 			ok = false
 			for g := 0; g < n; g++ {
 				if atomic.LoadInt32(&finished[g]) == 0 {
@@ -591,6 +603,77 @@ func runStress(sc *Scenario) {
 		after = r.snapshot()
 	}
 	endLine(sc, before, after, "")
+}
+
+// ---------------------------------------------------------------- shape of a call (sequential, instrumented)
+
+type recNode struct {
+	mt   string
+	inl  bool
+	kids []*recNode
+}
+
+func (n *recNode) tree() []any {
+	ks := []any{}
+	for _, k := range n.kids {
+		ks = append(ks, k.tree())
+	}
+	return []any{n.mt, n.inl, ks}
+}
+
+var (
+	recRoot  *recNode
+	recStack []*recNode
+)
+
+// wrapRec records the tree of nested registry calls; only used by the sequential "shape" scenarios (the
+// registries of all other scenarios hold the real minifiers unwrapped).
+func wrapRec(class string, f minify.MinifierFunc) minify.MinifierFunc {
+	return func(m *minify.M, w io.Writer, r io.Reader, params map[string]string) error {
+		n := &recNode{mt: class, inl: params != nil && params["inline"] == "1"}
+		if len(recStack) == 0 {
+			recRoot = n
+		} else {
+			p := recStack[len(recStack)-1]
+			p.kids = append(p.kids, n)
+		}
+		recStack = append(recStack, n)
+		err := f(m, w, r, params)
+		recStack = recStack[:len(recStack)-1]
+		return err
+	}
+}
+
+// runShape: which nested registry calls does this document cause?  Compared by ConcTrace with the call
+// shape the design model assumes for it (a difference is DRIFT information, not a verdict).
+func runShape(sc *Scenario) {
+	emit(Line{Ev: "begin", Sc: sc.ID, Note: sc.Kind})
+	for i, c := range sc.Calls {
+		r := newReg(sc.Optset)
+		_, _, cmdFn := r.m.Match("x-cmd/cat")
+		_, _, cmd2Fn := r.m.Match("x-cmdre/x")
+		// the same registrations in the same order, each minifier wrapped by the recorder
+		m2 := minify.New()
+		m2.AddFunc("text/html", wrapRec("html", r.html.Minify))
+		m2.AddFunc("text/css", wrapRec("css", r.css.Minify))
+		m2.AddFunc("image/svg+xml", wrapRec("svg", r.svg.Minify))
+		m2.AddFuncRegexp(reJS, wrapRec("js", r.js.Minify))
+		m2.AddFuncRegexp(reJSON, wrapRec("json", r.json.Minify))
+		m2.AddFuncRegexp(reXML, wrapRec("xml", r.xml.Minify))
+		m2.AddFunc("application/x-gate", wrapRec("gate", gateFn))
+		m2.AddFuncRegexp(reGate, wrapRec("gatere", gateFn))
+		m2.AddFunc("x-cmd/cat", wrapRec("cmd", cmdFn))
+		m2.AddFuncRegexp(reCmd, wrapRec("cmd", cmd2Fn))
+		m2.AddFuncRegexp(reUpper, wrapRec("upper", upperFn))
+		recRoot, recStack = nil, nil
+		res := doCall(m2, Call{E: "Bytes", MT: c.MT, Doc: c.Doc})
+		tree := []any{"none", false, []any{}}
+		if recRoot != nil {
+			tree = recRoot.tree()
+		}
+		emit(Line{Ev: "shape", Sc: sc.ID, K: i + 1, Sh: c.Sh, Key: keyOf(sc, c), H: res.h, Err: res.err, Tree: tree, Note: res.o1})
+	}
+	endLine(sc, "", "", "")
 }
 
 // runCmdIn: AddCmd with $in/$out placeholders on a registry of its own.
@@ -711,6 +794,11 @@ func main() {
 		} else {
 			runtime.GOMAXPROCS(defaultProcs)
 		}
+		if poisoned {
+			emit(Line{Ev: "begin", Sc: sc.ID, Note: sc.Kind})
+			emit(Line{Ev: "end", Sc: sc.ID, Note: "skipped"})
+			return
+		}
 		switch sc.Kind {
 		case "base":
 			runBase(&sc)
@@ -724,6 +812,8 @@ func main() {
 			runCmdIn(&sc)
 		case "htmldep":
 			runHtmlDep(&sc)
+		case "shape":
+			runShape(&sc)
 		default:
 			lib.Fatal("unknown scenario kind %q", sc.Kind)
 		}
